@@ -216,15 +216,26 @@ fn worker(batch: &str, o: &Opts, out: &mut dyn FnMut(String)) {
                     }
                 }
             }
-            for (w, h) in [(1920usize, 4usize), (97, 65), (64, 64), (33, 17), (130, 2)] {
-                for (sx, sy) in [(0u8, 0u8), (1, 1), (2, 2), (1, 0)] {
-                    let c = Cfg { mc: 9, tc: 1, cp: 1, full: true, n: 12, ssx: sx, ssy: sy };
-                    let px = unit_cube(&mut rng, w * h);
-                    let px = &px[..w * h];
-                    let div = u8::from(w % (1usize << sx) == 0 && h % (1usize << sy) == 0);
-                    let mut s = format!("\"ev\":\"total\",\"stage\":\"enc\",\"cfg\":{},\"st\":16,\"input\":\"unit\",\"npx\":{},\"w\":{w},\"h\":{h},\"divisible\":{div},", c.json(), px.len());
-                    run_guarded(&mut s, |b| enc::<u16>(px, w, h, &c, b));
-                    out(s);
+            // widths around the 64-byte stride alignment (32 / 64 / 128 / 256 samples +- a few), ragged ones included
+            let mut around: Vec<(usize, usize)> = vec![(1920, 4), (97, 65), (64, 64), (33, 17)];
+            for base in [32usize, 64, 128, 256] {
+                for d in [-1i64, 0, 1, 2, 3] {
+                    for hh in [1usize, 2, 3, 4] {
+                        around.push(((base as i64 + d) as usize, hh));
+                    }
+                }
+            }
+            for (w, h) in around {
+                for (sx, sy) in [(0u8, 0u8), (1, 1), (2, 2), (1, 0), (2, 0), (0, 1)] {
+                    for st in [8u8, 16] {
+                        let c = Cfg { mc: 9, tc: 1, cp: 1, full: true, n: if st == 8 { 8 } else { 12 }, ssx: sx, ssy: sy };
+                        let px = unit_cube(&mut rng, w * h);
+                        let px = &px[..w * h];
+                        let div = u8::from(w % (1usize << sx) == 0 && h % (1usize << sy) == 0);
+                        let mut s = format!("\"ev\":\"total\",\"stage\":\"enc\",\"cfg\":{},\"st\":{st},\"input\":\"unit\",\"npx\":{},\"w\":{w},\"h\":{h},\"divisible\":{div},", c.json(), px.len());
+                        run_guarded(&mut s, |b| if st == 8 { enc::<u8>(px, w, h, &c, b) } else { enc::<u16>(px, w, h, &c, b) });
+                        out(s);
+                    }
                 }
             }
         }
@@ -233,7 +244,8 @@ fn worker(batch: &str, o: &Opts, out: &mut dyn FnMut(String)) {
             let n = if o.thorough { 3000 } else { 300 };
             for i in 0..n {
                 let (sx, sy) = [(0u8, 0u8), (1, 0), (1, 1), (0, 1), (2, 0), (2, 2)][i % 6];
-                let w = ((1 + rng.below(97) as usize) >> sx).max(1) << sx;
+                let wraw = if i % 4 == 3 { [31usize, 32, 33, 63, 64, 65, 66, 127, 128, 129, 130, 255, 256, 257][(i / 4) % 14] } else { 1 + rng.below(97) as usize };
+                let w = (wraw >> sx).max(1) << sx;
                 let h = ((1 + rng.below(65) as usize) >> sy).max(1) << sy;
                 let pads = [(rng.below(18) as usize, rng.below(18) as usize), (rng.below(18) as usize, rng.below(18) as usize), (rng.below(18) as usize, rng.below(18) as usize)];
                 let st = if i % 2 == 0 { 8u8 } else { 16 };
